@@ -64,6 +64,7 @@ class Rig:
         off = 0 if channel == 1 else 24
         self.inb = a[SyncManager.IN] + off
         self.outb = a[SyncManager.OUT] + off
+        self.outb_other = a[SyncManager.OUT] + (24 - off)
         self.data = self.sg.current_data
 
     def close(self):
@@ -125,6 +126,12 @@ def _run(rig, tx_delays, rx_delays, init_delay, chunks, rx_strings, rx_gaps,
     def fail(key, msg):
         res.violation(key, f"{msg} ({desc})", case=desc)
         return False
+
+    # the other channel's half of the output image as its own device left
+    # it (handshake bits set, a string pending): nothing this channel's
+    # device does may change it
+    neighbour = bytes((0xa5 + 7 * i) & 0xff or 1 for i in range(24))
+    d[rig.outb_other:rig.outb_other + 24] = neighbour
 
     for cyc in range(max_cycles or MAXCYC):
         ctrl = d[rig.outb]
@@ -195,6 +202,14 @@ def _run(rig, tx_delays, rx_delays, init_delay, chunks, rx_strings, rx_gaps,
         d[rig.inb] = status
         # ---------------- device ----------------
         dev.update()
+        res.count("updates_checked_against_the_other_channel")
+        if bytes(d[rig.outb_other:rig.outb_other + 24]) != neighbour:
+            now = bytes(d[rig.outb_other:rig.outb_other + 24])
+            k_ = [i for i in range(24) if now[i] != neighbour[i]]
+            return fail("unexplained:other-channel-clobbered",
+                        f"cycle {cyc}: byte(s) {k_} of the other channel's "
+                        f"output image changed from "
+                        f"{neighbour[k_[0]]:#04x} to {now[k_[0]]:#04x}")
         # ---------------- application ----------------
         if dev.connected and chunks and cyc % 2 == 0:
             c = chunks.pop(0)
